@@ -227,6 +227,7 @@ class TDVPEngine(TimeEvolutionAlgorithm, Sweep):
             for eps in self.trunc_err_list:
                 trunc_err += TruncationError(eps, 1 - 2 * eps)
         self.evolved_time = self.evolved_time + N_steps * self.dt
+        self.trunc_err = self.trunc_err + trunc_err  # not += : make a copy!
         return trunc_err
 
 
